@@ -140,27 +140,17 @@ impl<'tcx> Cx<'tcx> {
     }
 }
 
-struct Cb;
-impl rustc_driver::Callbacks for Cb {
-    fn after_analysis<'tcx>(&mut self, _c: &rustc_interface::interface::Compiler, tcx: TyCtxt<'tcx>) -> Compilation {
-        let krate = tcx.crate_name(rustc_span::def_id::LOCAL_CRATE).to_string();
-        if krate != "simfony" && krate != "simc" && krate != "codegen" { return Compilation::Continue; }
-        let sm = tcx.sess.source_map();
-        let mut out = String::new();
-        out.push_str("{\"crate\":"); out.push_str(&esc(&krate)); out.push_str(",\"fns\":[\n");
-        let mut firstfn = true;
-        for ldid in tcx.hir_body_owners() {
-            let did = ldid.to_def_id();
-            let kind = tcx.def_kind(did);
-            if !matches!(kind, DefKind::Fn | DefKind::AssocFn | DefKind::Closure) { continue; }
-            let body = tcx.optimized_mir(did);
+
+fn dump_body<'tcx>(tcx: TyCtxt<'tcx>, did: rustc_span::def_id::DefId, body: &Body<'tcx>, path: &str, out: &mut String, firstfn: &mut bool) {
+    let sm = tcx.sess.source_map();
+    let kind = tcx.def_kind(did);
+    let path = path.to_string();
             let cx = Cx { tcx, did };
-            let path = tcx.def_path_str(did);
             let span = tcx.def_span(did);
             let loc = sm.span_to_diagnostic_string(span);
             let from_exp = span.from_expansion();
-            if !firstfn { out.push_str(",\n"); }
-            firstfn = false;
+            if !*firstfn { out.push_str(",\n"); }
+            *firstfn = false;
             let _ = write!(out, "{{\"path\":{},\"kind\":{},\"loc\":{},\"macro\":{},\"argc\":{},", esc(&path), esc(&format!("{:?}", kind)), esc(&loc), from_exp, body.arg_count);
             // locals
             out.push_str("\"locals\":[");
@@ -221,6 +211,35 @@ impl rustc_driver::Callbacks for Cb {
                 out.push('}');
             }
             out.push_str("]}");
+        
+}
+
+struct Cb;
+impl rustc_driver::Callbacks for Cb {
+    fn after_analysis<'tcx>(&mut self, _c: &rustc_interface::interface::Compiler, tcx: TyCtxt<'tcx>) -> Compilation {
+        let krate = tcx.crate_name(rustc_span::def_id::LOCAL_CRATE).to_string();
+        if krate != "simfony" && krate != "simc" && krate != "codegen" { return Compilation::Continue; }
+        let sm = tcx.sess.source_map();
+        let mut out = String::new();
+        out.push_str("{\"crate\":"); out.push_str(&esc(&krate)); out.push_str(",\"fns\":[\n");
+        let mut firstfn = true;
+        for ldid in tcx.hir_body_owners() {
+            let did = ldid.to_def_id();
+            let kind = tcx.def_kind(did);
+            if matches!(kind, DefKind::Const { .. } | DefKind::AssocConst { .. }) {
+                let body = tcx.mir_for_ctfe(did);
+                let path = tcx.def_path_str(did);
+                dump_body(tcx, did, body, &path, &mut out, &mut firstfn);
+                continue;
+            }
+            if !matches!(kind, DefKind::Fn | DefKind::AssocFn | DefKind::Closure) { continue; }
+            let body = tcx.optimized_mir(did);
+            let path = tcx.def_path_str(did);
+            dump_body(tcx, did, body, &path, &mut out, &mut firstfn);
+            for (pi, pbody) in tcx.promoted_mir(did).iter_enumerated() {
+                let ppath = format!("{}::promoted[{}]", path, pi.index());
+                dump_body(tcx, did, pbody, &ppath, &mut out, &mut firstfn);
+            }
         }
         out.push_str("\n]}\n");
         let p = std::env::var("FACTS_DIR").unwrap_or("/tmp".into());
